@@ -5,6 +5,7 @@ pub mod ast;
 pub mod eval;
 pub mod gen;
 pub mod json;
+pub mod minire;
 pub mod npath;
 pub mod parse;
 pub mod render;
